@@ -88,6 +88,13 @@ Definition site_steady (e : ventry) (a : asite) : bool :=
 
 Definition site_ok (e : ventry) (a : asite) : bool := site_init e a || site_steady e a.
 
+(* an exemption that holds only while NOTHING reaches the function (no
+   goroutine root: no caller in the checkout): the moment a caller appears
+   the site is checked like any other, with its callers' roots and locks *)
+Definition no_roots (a : asite) : bool := match a_roots a with [] => true | _ => false end.
+
 Definition allowed (al : list aentry) (a : asite) : bool :=
   existsb (fun x => String.eqb (al_var x) (a_var a) && String.eqb (al_fn x) (a_fn a)
                     && String.eqb (al_ctx x) (a_ctx a) && akind_eqb (al_kind x) (a_kind a)) al.
+
+Definition allowed_unreached (al : list aentry) (a : asite) : bool := allowed al a && no_roots a.
